@@ -1305,6 +1305,8 @@ Theorem wrong_key_kind_error e t obj :
   (forall i nt, lookup_type (tx_all t) obj = Some OText -> step e t (CPutObj obj (PSeq i) nt) = EErr EInvalidOp) /\
   (forall i z, lookup_type (tx_all t) obj = Some OMap -> step e t (CInc obj (PSeq i) z) = EErr EInvalidOp) /\
   (forall i, lookup_type (tx_all t) obj = Some OMap -> step e t (CDelete obj (PSeq i)) = EErr EInvalidOp) /\
+  (forall k, lookup_type (tx_all t) obj = Some OList -> step e t (CDelete obj (PMap k)) = EErr EInvalidOp) /\
+  (forall k, lookup_type (tx_all t) obj = Some OText -> step e t (CDelete obj (PMap k)) = EErr EInvalidOp) /\
   (forall i d s, lookup_type (tx_all t) obj = Some OList -> step e t (CSpliceText obj i d s) = EErr EInvalidOp).
 Proof.
   repeat split; intros; cbn [step]; unfold with_obj; rewrite H; reflexivity.
@@ -1412,4 +1414,14 @@ Proof.
   destruct (seek_nth _ _ _ _ _ _ _ _ _ _ Sk) as (k & -> & Hk). cbn [plus].
   split; [exact Hk|]. apply nth_error_In in Hk. destruct (seq_elems_reg _ _ _ _ Hk) as [Er _].
   split; [exact Er|]. rewrite <- Er. exact H.
+Qed.
+
+(* delete on a text at or beyond its length (measured in the encoding) *)
+Theorem text_delete_out_of_range_error e t obj i :
+  lookup_type (tx_all t) obj = Some OText ->
+  seq_width e OText (seq_elems (tx_all t) obj) <= i ->
+  step e t (CDelete obj (PSeq i)) = EErr EInvalidIndex.
+Proof.
+  intros L H. cbn [step]. unfold with_obj. rewrite L.
+  apply N.leb_le in H. rewrite H. reflexivity.
 Qed.
